@@ -6,6 +6,12 @@ is run through TutteEmbedding in every configuration (boundary circle / square /
 or - where admissible by an exact predicate - cotangent weights, per-vertex and per-corner storage) and the
 result is judged clause by clause by an oracle that only uses the face list, the integer coordinates and the
 numbers produced. Non-disks (chi != 1) must be rejected.
+
+History dimension: on a selection of disks EVERY history (depth 2 over the full configuration alphabet, depth 3 over a
+coarse one) of "new TutteEmbedding of some configuration on the SAME mesh object, run" / "run() again on the last object"
+is executed; after every call the object that ran must hold what the same configuration gives on a fresh twin mesh, every
+embedding object created earlier must still hold the coordinates it held right after its own run, and at the end the flat
+mesh of every object must show that object's coordinates.
 """
 from __future__ import annotations
 import functools, math
@@ -14,14 +20,17 @@ from mc import families as F
 
 ID = "C17"
 TECHNIQUE = ("bounded-exhaustive enumeration (flip-graph BFS = all triangulations of each point set; all labelled "
-             "complexes on <= 6 vertices) x all configurations of the real TutteEmbedding vs a clause-by-clause oracle")
+             "complexes on <= 6 vertices) x all configurations of the real TutteEmbedding vs a clause-by-clause oracle; "
+             "exhaustive call histories (depth 2-3) of embeddings on one mesh object vs fresh-twin runs and snapshots")
 RULE = ("one case = (triangulated disk with its vertex numbering and orientation, geometry, boundary mode, weights); "
         "disks: every triangulation of every point set P = convex k-gon + j interior lattice points (two placement rules: "
         "nearest the centroid / inside the ears / regular-ish polygon with an inner ring) under 4 renumberings (identity, reversed, multiplicative scramble, "
         "mirrored orientation), every labelled disk of SURF(n), triangulated grids; configurations: boundary circle, square, "
         "custom strictly convex polygon in both directions x uniform weights, cotangent weights of the planar and of the "
         "paraboloid-lifted geometry where admissible x save_on_corners True/False; non-trivial = more than one triangle; "
-        "non-disks: every labelled complex of SURF(n) with chi != 1 + closed / annular / multi-component specimens")
+        "non-disks: every labelled complex of SURF(n) with chi != 1 + closed / annular / multi-component specimens; "
+        "histories: one case = (disk, sequence of events on ONE mesh object), event = run a new embedding object of configuration "
+        "(boundary mode, weights, storage) or run() again on the object created last; all sequences of the stated depth")
 ASSUMPTIONS = [
     "meshes are oriented manifold triangulated disks within the stated size bounds (plus grids up to 5x5); larger meshes are not explored",
     "cotangent weights are exercised only where an exactly evaluated predicate says: every edge weight >= 0 and every edge "
@@ -33,10 +42,14 @@ ASSUMPTIONS = [
     "the circle/square may be any circle / axis-parallel square (the unit ones or the one spanned by the produced border positions)",
     "custom boundaries are strictly convex integer polygons handed over in the order of mesh.boundary_vertices, as the API documents",
     "tolerances: 1e-9 relative for positions and mean-value residuals, |det| > 1e-12 for strict orientation",
+    "histories: an embedding object keeps describing its own embedding after later runs on the same mesh (compared with a snapshot "
+    "taken right after its run, 1e-9 relative); with config.display_duplicate_attribute_warning=True create_attribute hands back the "
+    "existing attribute, so there only the latest result and the equality with the fresh-twin run are judged; histories are explored "
+    "on a selection of disks (border lengths 4..10, with/without interior vertices and chords, planar and curved), depth <= 3",
 ]
 BOUNDS = {
-    "quick": "TRI(P) for all k>=3, j>=0, k+j<=7 (3 placement rules, 3 renumberings; 473 triangulations); Delaunay triangulations of regular k-gons (k=3..7) + 1 or 2 interior points on a coarse lattice (1228); all labelled SURF(n<=5) + the 28 classes of SURF(6); grids 3x3..4x4; fans and wheels with border 9..16; zoo of non-disks (closed, annuli, two components, two holes)",
-    "thorough": "TRI(P) for all k>=3, j>=0, k+j<=8 (3 placement rules, 4 renumberings; 1941 triangulations); Delaunay triangulations of regular k-gons + 1..3 interior lattice points (4807); all 12934 labelled SURF(6) complexes; grids up to 5x5; fans and wheels with border 9..16; zoo of non-disks",
+    "quick": "TRI(P) for all k>=3, j>=0, k+j<=7 (3 placement rules, 3 renumberings; 473 triangulations); Delaunay triangulations of regular k-gons (k=3..7) + 1 or 2 interior points on a coarse lattice (1228); all labelled SURF(n<=5) + the 28 classes of SURF(6); grids 3x3..4x4; fans and wheels with border 9..16; zoo of non-disks (closed, annuli, two components, two holes); call histories on one mesh: 8 disks x all depth-2 sequences over {circle, square, custom} x {uniform, cotan where admissible} x {vertices, corners} + 'run again', 3 disks x all depth-3 sequences over {circle, square} x {vertices, corners} + 'run again' (978 histories)",
+    "thorough": "TRI(P) for all k>=3, j>=0, k+j<=8 (3 placement rules, 4 renumberings; 1941 triangulations); Delaunay triangulations of regular k-gons + 1..3 interior lattice points (4807); all 12934 labelled SURF(6) complexes; grids up to 5x5; fans and wheels with border 9..16; zoo of non-disks; call histories on one mesh: 18 disks x all depth-2 sequences over the 4 boundary modes x {uniform, cotan where admissible} x {vertices, corners} + 'run again', and all depth-3 sequences over {circle/uniform, square/uniform, custom/cotan, custom/uniform} x {vertices, corners} + 'run again' (10466 histories)",
 }
 
 SCALE = 6          # polygon of families.convex_polygon_points(k) is scaled so that it contains enough lattice points
@@ -48,6 +61,8 @@ CATALAN = {3: 1, 4: 2, 5: 5, 6: 14, 7: 42, 8: 132}
 TOL = 1e-9
 # pinned family sizes (number of triangulations of the point sets, measured; a change means the family changed)
 PINNED_TRI = {"quick": 473, "thorough": 1941}
+# pinned number of call histories on one mesh object (measured; depends on which disks admit cotangent weights)
+PINNED_HIST = {"quick": 978, "thorough": 10466}
 # config.sort_neighborhoods=False is outside the quantifier of the statement (see the report); set True to explore it as well
 EXPLORE_UNSORTED = False
 
@@ -257,6 +272,7 @@ def tasks(tier):
         out.append({"family": "surf", "meshes": S[lo:lo + 40]})
     for name in _zoo_names(tier):
         out.append({"family": "zoo", "name": name})
+    out += _hist_tasks(tier)
     if EXPLORE_UNSORTED:
         out += [dict(t, unsorted=True) for t in out if t["family"] in ("tri", "zoo")]
     return out
@@ -418,11 +434,10 @@ def _custom_target(disk, reverse):
     return {v: poly[i] for i, v in enumerate(disk.loop)}
 
 
-def _execute(disk, mode, use_cotan, soc):
-    """Run the real code on a fresh mesh. Returns (per-vertex positions, per-corner info, flat mesh positions)."""
+def _make(m, disk, mode, use_cotan, soc):
+    """A TutteEmbedding object for one configuration on the mesh object `m` (not run yet) + the custom target, if any."""
     import numpy as np
     from mouette.processing import parametrization as PARAM
-    m = F.build_surface(disk.fpts, disk.faces)
     kw = dict(verbose=False, use_cotan=use_cotan, save_on_corners=soc)
     target = None
     if mode in ("circle", "square"):
@@ -432,18 +447,33 @@ def _execute(disk, mode, use_cotan, soc):
         bv = [int(v) for v in m.boundary_vertices]
         arr = np.array([[target[v][0], target[v][1]] for v in bv], dtype=float)
         t = PARAM.TutteEmbedding(m, custom_boundary=arr, **kw)
-    t.run()
+    return t, target
+
+
+def _read(t, m, disk, soc, flat=True):
+    """The numbers an embedding object holds NOW, read through its own `uvs` attribute (and its flat mesh)."""
     uv = t.uvs
-    res = {"target": target}
+    res = {}
     if soc:
         nc = len(m.face_corners)
         res["corner_vertex"] = [int(m.face_corners[c]) for c in range(nc)]
         res["corner_uv"] = [tuple(float(x) for x in uv[c]) for c in range(nc)]
     else:
         res["vertex_uv"] = [tuple(float(x) for x in uv[v]) for v in range(disk.n)]
-    fm = t.flat_mesh
-    res["flat"] = None if fm is None else [tuple(float(x) for x in fm.vertices[v]) for v in range(disk.n)]
+    if flat:
+        fm = t.flat_mesh
+        res["flat"] = None if fm is None else [tuple(float(x) for x in fm.vertices[v]) for v in range(disk.n)]
     res["uv_len"] = len(res.get("corner_uv", res.get("vertex_uv")))
+    return res
+
+
+def _execute(disk, mode, use_cotan, soc):
+    """Run the real code on a fresh mesh. Returns (per-vertex positions, per-corner info, flat mesh positions)."""
+    m = F.build_surface(disk.fpts, disk.faces)
+    t, target = _make(m, disk, mode, use_cotan, soc)
+    t.run()
+    res = _read(t, m, disk, soc)
+    res["target"] = target
     return res
 
 
@@ -569,8 +599,9 @@ def judge(rep: Report, disk: Disk, mode, weights, wmap, pos, target):
             rep.flag(f"embedded:{mode}:{weights}")
 
 
-def check_disk(rep: Report, disk: Disk, modes, geoms):
-    """geoms: list of (weights label, use_cotan, ipts or None, fpts)."""
+def check_disk(rep: Report, disk: Disk, modes, geoms, collect=None):
+    """geoms: list of (weights label, use_cotan, ipts or None, fpts).
+    collect (optional dict): (mode, weights, save_on_corners) -> (Outcome of the run on a fresh mesh, Disk, weight map)."""
     bl = len(disk.loop)
     rep.flag(f"border_len:{bl}")
     rep.flag("interior:" + disk.int_class())
@@ -599,6 +630,9 @@ def check_disk(rep: Report, disk: Disk, modes, geoms):
             oC = call(_execute, d, mode, use_cotan, True)
             rep.traces += 2; rep.transitions += 2; rep.states += 1
             rep.case((d.fpts, d.faces, mode, weights))
+            if collect is not None:
+                collect[(mode, weights, False)] = (oV, d, wmap)
+                collect[(mode, weights, True)] = (oC, d, wmap)
             if len(rep.samples) < 2 and disk.interior and disk.chords:
                 rep.sample(dict(base, n_border=bl, n_interior=len(disk.interior)))
             posV = posC = None
@@ -652,6 +686,222 @@ def check_disk(rep: Report, disk: Disk, modes, geoms):
             if pos is not None:
                 target = (oV.value if posV is not None else oC.value)["target"]
                 judge(rep, d, mode, weights, wmap, pos, target)
+
+
+# ================================================================================================ histories on ONE mesh object
+AGAIN = "again"      # event: run() once more on the embedding object created last
+
+
+def _has_chord(faces, k):
+    """an edge joining two non-consecutive vertices of the polygon 0..k-1"""
+    return any(a < k and b < k and (b - a) % k not in (1, k - 1) for a, b in F.undirected_edges([tuple(f) for f in faces]))
+
+
+@functools.lru_cache(maxsize=None)
+def _hist_specs(tier):
+    """Disks on which call histories are explored: computed selections from the families above (JSON-pure specs)."""
+    thorough = tier != "quick"
+    zoo = ["wheel:5", "wheel:7", "fan:6", "grid:3:4:tri2:bowl"] + (["wheel:6", "wheel:10", "fan:9", "grid:3:3:tri:flat", "grid:4:4:tri:bowl"] if thorough else [])
+    specs = [{"src": "zoo", "name": n} for n in zoo]
+    D = del_inputs(tier)
+
+    def admissible(i):
+        k, inner = D[i]
+        pts = _polygon(k, True) + [tuple(q) for q in inner]
+        return cotan_admissible([(x, y, 0) for x, y in pts], delaunay(pts, k), set(range(k, len(pts))))[0] == "ok"
+
+    for k in ((3, 4, 5, 6, 7) if thorough else (4, 5, 6)):   # per polygon size: the first Delaunay input with two interior points
+        cand = [i for i, (kk, inner) in enumerate(D) if kk == k and len(inner) == 2]      # and admissible cotangent weights
+        idx = next((i for i in cand if admissible(i)), cand[0])
+        specs.append({"src": "del", "tier": tier, "idx": idx})
+    tri = [(5, 2, "regular", "scr")] + ([(4, 1, "centre", "mir"), (6, 1, "ears", "rev"), (5, 3, "centre", "id")] if thorough else [])
+    for (k, j, variant, rl) in tri:                           # first triangulation with a chord (interior edge joining border vertices)
+        _, T = tri_family(k, j, variant)
+        idx = next((i for i, faces in enumerate(T) if _has_chord(faces, k)), 0)
+        specs.append({"src": "tri", "k": k, "j": j, "variant": variant, "relabel": rl, "idx": idx})
+    return specs
+
+
+def _hist_tasks(tier):
+    thorough = tier != "quick"
+    out = []
+    full = [[m, w] for m in (MODES if thorough else MODES[:3]) for w in ("uniform", "cotan")]
+    coarse = [["circle", "uniform"], ["square", "uniform"]] + ([["custom", "cotan"], ["custom", "uniform"]] if thorough else [])
+    for i, spec in enumerate(_hist_specs(tier)):
+        out.append({"family": "hist", "disk": spec, "depth": 2, "configs": full})
+        if thorough or i % 3 == 0:
+            out.append({"family": "hist", "disk": spec, "depth": 3, "configs": coarse})
+    return out
+
+
+def _hist_disk(spec):
+    """(name, integer points, faces)"""
+    if spec["src"] == "zoo":
+        p, f = _zoo(spec["name"])
+        return spec["name"], [tuple(int(c) for c in q) for q in p], [tuple(x) for x in f]
+    if spec["src"] == "del":
+        k, inner = del_inputs(spec["tier"])[spec["idx"]]
+        pts = _polygon(k, True) + [tuple(q) for q in inner]
+        return f"del:{k}+{len(inner)}#{spec['idx']}", [(x, y, 0) for x, y in pts], delaunay(pts, k)
+    pts, T = tri_family(spec["k"], spec["j"], spec["variant"])
+    q, g = relabelled(list(pts), T[spec["idx"]], spec["relabel"])
+    return f"tri:{spec['k']}+{spec['j']}:{spec['variant']}:{spec['relabel']}#{spec['idx']}", [(x, y, 0) for x, y in q], g
+
+
+def _numbers(res):
+    return res["corner_uv"] if "corner_uv" in res else res["vertex_uv"]
+
+
+def _same_numbers(a, b):
+    """two readings of a uv attribute of the same storage kind hold the same coordinates"""
+    if ("corner_uv" in a) != ("corner_uv" in b) or a.get("corner_vertex") != b.get("corner_vertex"):
+        return False
+    na, nb = _numbers(a), _numbers(b)
+    return len(na) == len(nb) and all(len(p) == 2 and len(q) == 2 and _close2(p, q, max(1.0, abs(q[0]), abs(q[1]))) for p, q in zip(na, nb))
+
+
+def _per_vertex(res, n):
+    """per-vertex positions of a reading (corners: the value of the first corner of each vertex)"""
+    if "vertex_uv" in res:
+        return list(res["vertex_uv"])
+    pos = [None] * n
+    for c, v in enumerate(res["corner_vertex"]):
+        if pos[v] is None:
+            pos[v] = res["corner_uv"][c]
+    return pos
+
+
+def _storage(soc):
+    return "corners" if soc else "vertices"
+
+
+def run_history(rep: Report, d: Disk, hist, twins, dup_flag):
+    """One history of run() calls on ONE mesh object. After every call:
+       (A) the object that ran holds the coordinates the same configuration gives on a fresh twin mesh,
+       (B) every embedding object created earlier still holds the coordinates it held right after its own last run,
+       and at the end (C) the flat mesh of every object (first requested now) shows the coordinates of that object."""
+    callee = "TutteEmbedding.run"
+    m = F.build_surface(d.fpts, d.faces)
+    held = []        # [configuration, embedding object, reading taken right after its last run]
+    base = {"mesh": d.name, "points": d.fpts, "faces": d.faces, "history_on_one_mesh": [list(e) if e != AGAIN else e for e in hist]}
+    rep.traces += 1
+    for step, ev in enumerate(hist):
+        again = ev == AGAIN
+        if again:
+            cfg, t = held[-1][0], held[-1][1]
+        else:
+            cfg = tuple(ev)
+        mode, weights, soc = cfg
+        earlier = held[:-1] if again else held
+        rel = "same" if any(h[0][2] == soc for h in earlier) else "other"
+        cls_run = f"{_storage(soc)}:{'rerun_of_same_object' if again else 'new_object'}:after_{rel}_storage_run" + _SUFFIX[0]
+        if not again:
+            o = call(_make, m, d, mode, weights != "uniform", soc)
+            if not o.ok:
+                rep.violation("C17.history.run_accepted", "TutteEmbedding.__init__", exc_kind(o), cls_run, dict(base, step=step, msg=o.msg))
+                return
+            t = o.value[0]
+        o = call(t.run)
+        rep.transitions += 1
+        rep.outcome("history_run", "ok" if o.ok else exc_kind(o))
+        if not o.ok:
+            rep.violation("C17.history.run_accepted", callee, exc_kind(o), cls_run, dict(base, step=step, msg=o.msg))
+            return
+        o = call(_read, t, m, d, soc, False)
+        if not o.ok:
+            rep.violation("C17.history.run_accepted", "TutteEmbedding.uvs", exc_kind(o), cls_run, dict(base, step=step, msg=o.msg))
+            return
+        now = o.value
+        # ---- (A) same coordinates as the same configuration on a fresh twin mesh
+        rep.evaluations += 1
+        if _same_numbers(now, twins[cfg]):
+            rep.count("hist_equals_fresh:" + ("again" if again else "new"))
+        else:
+            rep.violation("C17.history.run_equals_fresh_mesh_run", callee, "mismatch:differs_from_same_configuration_on_fresh_mesh", cls_run,
+                          dict(base, step=step, configuration=list(cfg), got=_numbers(now), on_fresh_mesh=_numbers(twins[cfg])))
+        if again:
+            held[-1][2] = now
+        else:
+            held.append([cfg, t, now])
+        # ---- (B) the results handed out earlier are still what they were
+        for (cfg0, t0, snap0) in held[:-1]:
+            if dup_flag:       # under that switch create_attribute documents the hand-back of the existing attribute: nothing promised
+                rep.count("hist_preservation_not_judged_duplicate_flag")
+                continue
+            rep.evaluations += 1
+            cls_keep = (f"{_storage(cfg0[2])}:later_run_{'same' if cfg0[2] == soc else 'other'}_storage:"
+                        f"{'same' if cfg0 == cfg else 'different'}_configuration" + _SUFFIX[0])
+            o = call(_read, t0, m, d, cfg0[2], False)
+            if not o.ok:
+                rep.violation("C17.history.earlier_result_preserved", "TutteEmbedding.uvs", exc_kind(o), cls_keep,
+                              dict(base, step=step, earlier_configuration=list(cfg0), msg=o.msg))
+            elif not _same_numbers(o.value, snap0):
+                rep.violation("C17.history.earlier_result_preserved", callee, "side_effect:earlier_embedding_uvs_changed", cls_keep,
+                              dict(base, step=step, earlier_configuration=list(cfg0), later_configuration=list(cfg),
+                                   held_after_own_run=_numbers(snap0), held_now=_numbers(o.value)))
+            else:
+                rep.count("hist_preserved:" + cls_keep.split(":")[1] + ":" + cls_keep.split(":")[2])
+                if cfg0[2] == soc and cfg0 != cfg:
+                    rep.flag("hist:same_storage_other_configuration_preserved")
+    # ---- (C) flat meshes, first requested after the whole history
+    for i, (cfg0, t0, snap0) in enumerate(held):
+        if dup_flag and i + 1 < len(held):
+            continue
+        rep.evaluations += 1
+        cls_flat = f"{_storage(cfg0[2])}:{'last' if i + 1 == len(held) else 'earlier'}_object" + _SUFFIX[0]
+        pos = _per_vertex(snap0, d.n)
+        o = call(lambda: [tuple(float(x) for x in t0.flat_mesh.vertices[v]) for v in range(d.n)])
+        if not o.ok:
+            rep.violation("C17.history.flat_mesh", "TutteEmbedding.flat_mesh", exc_kind(o), cls_flat, dict(base, configuration=list(cfg0), msg=o.msg))
+        elif any(p is None or not (_close2(fl[:2], p, max(1.0, abs(p[0]), abs(p[1]))) and fl[2] == 0.0) for fl, p in zip(o.value, pos) if p is None or _finite(p)):
+            rep.violation("C17.history.flat_mesh", "TutteEmbedding.flat_mesh", "mismatch:flat_mesh_vs_uvs_of_that_object", cls_flat,
+                          dict(base, configuration=list(cfg0), flat=o.value, uvs=pos))
+        else:
+            rep.count("hist_flat_ok")
+    rep.count("histories")
+    rep.count(f"histories_depth{len(hist)}")
+    rep.case(("hist", d.fpts, d.faces, tuple(hist)))
+
+
+def check_histories(rep: Report, name, ipts, faces, depth, configs):
+    """Every history of `depth` events - new embedding object of any configuration, or run() again on the last object -
+    on one mesh object; the reference of every call is the same configuration on a fresh twin mesh (which is judged clause
+    by clause by check_disk first)."""
+    import itertools
+    import mouette as M
+    faces = [tuple(f) for f in faces]
+    ipts3 = [tuple(p) if len(p) == 3 else (p[0], p[1], 0) for p in ipts]
+    fpts = [tuple(float(c) for c in p) for p in ipts3]
+    sig, is_disk = _is_disk(faces, len(ipts3))
+    assert is_disk, name
+    d = Disk(name, ipts3, fpts, faces)
+    modes = [m for m in MODES if any(c[0] == m for c in configs)]
+    want_w = {c[1] for c in configs}
+    geoms = ([("uniform", False, None, fpts)] if "uniform" in want_w else []) + ([("cotan", True, ipts3, fpts)] if "cotan" in want_w else [])
+    got = {}
+    check_disk(rep, d, modes, geoms, got)
+    twins, alphabet = {}, []
+    for (mode, weights) in [tuple(c) for c in configs]:
+        for soc in (False, True):
+            o = got.get((mode, weights, soc))
+            if o is None:
+                rep.count("hist_configuration_dropped_cotan_not_admissible")
+            elif o[0].ok:            # a configuration that fails on a fresh mesh is reported by check_disk
+                twins[(mode, weights, soc)] = o[0].value
+                alphabet.append((mode, weights, soc))
+    if any(c[1] == "cotan" for c in alphabet):
+        rep.count("hist_disks_with_cotan")
+    rep.count("hist_disks")
+    dup_flag = bool(M.config.display_duplicate_attribute_warning)
+    events = alphabet + [AGAIN]
+    if len(rep.samples) < 3:
+        rep.sample({"mesh": name, "depth": depth, "alphabet": [list(c) for c in alphabet] + [AGAIN]})
+    for hist in itertools.product(events, repeat=depth):
+        if hist[0] == AGAIN:
+            continue
+        if AGAIN in hist:
+            rep.flag("hist:again")
+        run_history(rep, d, hist, twins, dup_flag)
 
 
 # ================================================================================================ non-disks
@@ -806,6 +1056,9 @@ def _run_task(task, rep: Report):
         for name, n, faces in task["meshes"]:
             dispatch(rep, name, F.moment_curve(n), faces, MODES)
             rep.count("surf_complexes")
+    elif fam == "hist":
+        name, ip, g = _hist_disk(task["disk"])
+        check_histories(rep, name, ip, g, task["depth"], task["configs"])
     else:
         p, f = _zoo(task["name"])
         if any(isinstance(c, float) and c != int(c) for q in p for c in q):
@@ -847,6 +1100,17 @@ def finish(tier, rep: Report):
               "non_disks", "surf_complexes", "zoo", "delaunay_inputs"):
         if not rep.counters.get(c):
             fails.append("counter is zero: " + c)
+    # histories on one mesh object
+    for f in ("hist:again", "hist:same_storage_other_configuration_preserved"):
+        if f not in rep.flags:
+            fails.append("coverage flag missing: " + f)
+    for c in ("histories_depth2", "histories_depth3", "hist_disks_with_cotan", "hist_equals_fresh:new", "hist_equals_fresh:again", "hist_flat_ok",
+              "hist_preserved:later_run_same_storage:different_configuration", "hist_preserved:later_run_same_storage:same_configuration",
+              "hist_preserved:later_run_other_storage:different_configuration"):
+        if not rep.counters.get(c):
+            fails.append("counter is zero: " + c)
+    if PINNED_HIST.get(tier) is not None and rep.counters.get("histories", 0) != PINNED_HIST[tier]:
+        fails.append(f"histories executed {rep.counters.get('histories', 0)} differ from the pinned {PINNED_HIST[tier]}")
     # the exclusion of the square clause can only trigger once a side carries three border vertices
     if rep.counters.get("square_border_ok_len>=5") and not rep.counters.get("square_excluded_chord_on_one_side"):
         fails.append("square borders of length >= 5 were placed correctly but the one-side exclusion never triggered")
@@ -856,7 +1120,7 @@ def finish(tier, rep: Report):
 def dupflag_variant(task, tier):
     """Tasks that are also run with config.display_duplicate_attribute_warning = True (the runner appends
     ':duplicate_attribute_flag' to the input class of anything found there)."""
-    return bool(task.get("family") == "zoo")
+    return bool(task.get("family") == "zoo" or (task.get("family") == "hist" and task.get("depth") == 3))
 
 
 def warm_variant(task, tier):
